@@ -17,7 +17,8 @@
       (they come from a fragment, incl. single-H fragments) keep their own;
     * explicitly written hydrogens present before the completion are still present afterwards. *)
 From Coq Require Import String.
-From Coq Require Import List Ascii ZArith Bool Floats.
+From Coq Require Import List Ascii ZArith Bool.
+From Coq Require Import Floats.PrimFloat.
 From CGV Require Import Base.PyBase Base.PyVal Base.NxGraph Gen.HydroGen Hydro.Hydrogens Hydro.Fragments.
 Import ListNotations.
 Open Scope Z_scope.
